@@ -42,7 +42,7 @@ func verifC11_MuxReload() {
 	m := &mux{}
 	m.inst.Store(&muxInstance{spec: &Spec{}})
 	m.reload(vSuper(oldSpec), mapper)
-	verifRaceScope(m, "mux")
+	verifRaceScopeDeep(m, "mux")
 
 	bodyLen := verifChoose("bodyLength", 4)
 	mk := func() (*vWriter, *http.Request) {
